@@ -1,3 +1,4 @@
+@batchsz.setter
 def spec(self, value):
     BatchShapeMixin.batchsz.fset(self, value)
     self.clear()
